@@ -179,8 +179,23 @@ func TestVerifC04(t *testing.T) {
 	}
 	total := 0
 	var wfile []map[string]any
-	for w := 0; w < nwork; w++ {
+	// an extra workload with ONE large transaction (commit of `bigTx` distinct new keys): only the cuts
+	// around its commit are enumerated (a commit must be one atomic persistent step whatever its size)
+	bigTx, _ := strconv.Atoi(os.Getenv("VERIF_C04_BIGTX"))
+	nAll := nwork
+	if bigTx > 0 {
+		nAll++
+	}
+	for w := 0; w < nAll; w++ {
 		ops := c04Workload(rng, g, keys)
+		big := bigTx > 0 && w == nAll-1
+		if big {
+			ops = []string{"s 0 " + keys[0] + " 1 set", "b 1 " + seqLevels[rng.n(4)]}
+			for i := 0; i < bigTx; i++ {
+				ops = append(ops, fmt.Sprintf("s 1 %s %d set", hexKey(fmt.Sprintf("big%05d", i)), 1000+i))
+			}
+			ops = append(ops, "d 1 "+keys[0], "c 1")
+		}
 		wdir := filepath.Join(out, fmt.Sprintf("c04-w%d", w))
 		os.RemoveAll(wdir)
 		os.MkdirAll(wdir, 0o755)
@@ -198,7 +213,13 @@ func TestVerifC04(t *testing.T) {
 		os.RemoveAll(full)
 		var wg sync.WaitGroup
 		sem := make(chan struct{}, 8)
+		var cutList []int
 		for cut := 1; cut <= nm; cut++ {
+			if !big || cut > nm-8 || cut%(nm/6+1) == 3 {
+				cutList = append(cutList, cut)
+			}
+		}
+		for _, cut := range cutList {
 			wg.Add(1)
 			sem <- struct{}{}
 			go func(cut int) {
